@@ -1005,6 +1005,22 @@ func ruleMDASSIGN(c *Ctx) []Obligation {
 		}
 	}
 	obs = append(obs, o4)
+	// no success exit ahead of the loop that records (and checks) the explicit IDs: a fast path
+	// for "already numbered" modules skips the only duplicate test
+	if collectLoop != nil {
+		o5 := Obligation{Key: "AssignMetadataIDs reaches the duplicate test on every successful path", Pos: c.pos(collectLoop.Pos()), Verdict: OK, Detail: "no success return ahead of the loop over the definitions", Tags: []string{"md"}}
+		ast.Inspect(fd.Body, func(nd ast.Node) bool {
+			if _, ok := nd.(*ast.FuncLit); ok {
+				return false
+			}
+			if is, ok := nd.(*ast.IfStmt); ok && is.Pos() < collectLoop.Pos() && successReturn(is.Body) && o5.Verdict == OK {
+				o5.Verdict, o5.Pos = VIOL, c.pos(is.Pos())
+				o5.Detail = "`if " + exprString(is.Cond) + " { return nil }` leaves the routine before the loop that records the explicit IDs and rejects a number used twice: two definitions with one ID (the zero value of MetadataID is the explicit ID !0) are then printed under the same number"
+			}
+			return true
+		})
+		obs = append(obs, o5)
+	}
 	// WriteTo calls both assignment routines before the first write
 	wi := c.writerAnchors()
 	o3 := Obligation{Key: "WriteTo assigns IDs before writing", Verdict: OK, Tags: []string{"md"}}
